@@ -196,8 +196,10 @@ def finish(pid, tier, seed, results, reg, assumed, wall, known, match_known):
     }
     ev = {'property_id': pid, 'tier': tier, 'seed': seed, 'level': level, 'coverage': cov, 'assumptions': assumptions,
           'wall_s': round(wall, 2), 'violations': len(violations)}
-    os.makedirs(os.path.join(ROOT, 'evidence'), exist_ok=True)
-    with open(os.path.join(ROOT, 'evidence', pid + '.json'), 'w') as fh:
+    # (an experiment against a modified tree -- tools/try_seed.sh -- sends its evidence elsewhere: evidence/ describes /repo)
+    ev_dir = os.environ.get('PYVC_EVIDENCE_DIR') or os.path.join(ROOT, 'evidence')
+    os.makedirs(ev_dir, exist_ok=True)
+    with open(os.path.join(ev_dir, pid + '.json'), 'w') as fh:
         json.dump(ev, fh, indent=1, default=str)
     for l in out_lines:
         print(l)
